@@ -7,7 +7,7 @@ loader.install()
 from symrun import core  # noqa: E402
 from symrun.core import eng  # noqa: E402
 from symrun.values import fresh_int, SymInt, sym_and, sym_not, SymBool  # noqa: E402
-from harness.dsim import DExplore, make_jobs, NAMES  # noqa: E402
+from harness.dsim import DExplore, make_jobs, make_random_jobs as make_drandom_jobs, NAMES  # noqa: E402
 from harness.c10 import delivery_violations  # noqa: E402
 from wormhole._dilation import manager as MGR  # noqa: E402
 from env.dilation import LEADER, FOLLOWER  # noqa: E402
@@ -108,7 +108,7 @@ class IdParity(Job):
 
 
 def jobs(tier):
-    return [IdParity()] + make_jobs(Subchannels, tier, 2, 3)
+    return [IdParity()] + make_jobs(Subchannels, tier, 2, 3) + make_drandom_jobs(Subchannels, tier)
 
 
 ASSUMPTIONS = [
